@@ -18,7 +18,7 @@ Ev == Traces[tid][l]
 Matches(e) ==
   /\ box' = ToSetOf(e.box)
   /\ \A s \in Subs : haveRead'[s] = e.haveRead[s] /\ waitFor'[s] = e.waitFor[s]
-  /\ nSent' = e.nSent /\ closed' = e.closed /\ killed' = e.killed
+  /\ nSent' = e.nSent /\ closed' = e.closed /\ killed' = e.killed /\ force' = e.force
   /\ \A s \in Subs : Len(got'[s]) = Len(e.got[s]) /\ \A i \in 1..Len(e.got[s]) : got'[s][i] = e.got[s][i]
   /\ futDone' = ToSetOf(e.futDone)
 
@@ -31,6 +31,7 @@ TraceNext ==
      /\ \/ e.k = "S" /\ Sender
         \/ e.k = "R" /\ Reader(e.i)
         \/ e.k = "W" /\ WComplete(e.i)
+        \/ e.k = "K" /\ KKill
      /\ Matches(e)
 
 TraceSpec == TraceInit /\ [][TraceNext]_tvars
